@@ -256,7 +256,7 @@ func runC16(c *CheckCtx) {
 func init() {
 	register(&Property{
 		ID: "C17", Level: "other",
-		Technique: "contract-based deductive verification of the position bookkeeping functions: lisperror.NewLispError (an error that carries a position keeps it; otherwise it gets the position of the reporting form), lisperror.GetPosition (the cursor of lists, vectors, symbols, maps, sets), Position.Copy/Close (begin from the receiver, end from the closing token), tokenReader.peek/next (the cursor handed out is the token's), tokenize (every token's cursor begins and ends on the scanner's line for that token and carries the module)",
+		Technique: "contract-based deductive verification of the position bookkeeping functions: lisperror.NewLispError (an error that carries a position keeps it; otherwise it gets the position of the reporting form), lisperror.GetPosition (the cursor of lists, vectors, symbols, maps, sets), Position.Copy/Close (begin from the receiver, end from the closing token), tokenReader.peek/next (the cursor handed out is the token's), tokenize (every token's cursor begins and ends on the scanner's line for that token and carries the module), call-site obligations that Read_str hands its text to tokenize and READ its text and cursor to Read_str unchanged",
 		DesignRef: "DESIGN.md §4 C17",
 		Explain:   "partial: the functions through which every error position passes are proved against their specification; that the reader's list cursors span first to last token, that EVAL hands the right form to NewLispError at each site, token rows = text lines (scanner) and library macros are not covered",
 		Run:       runC17,
